@@ -692,11 +692,11 @@ def evaluate_all(ctx, schemas, cases, refs):
 def run(ctx):
     rng = ctx.rng
     th = ctx.thorough
-    schemas = [msggen.matrix_schema()] + [msggen.random_schema(rng) for _ in range(5 if not th else 40)]
+    schemas = [msggen.matrix_schema()] + [msggen.random_schema(rng) for _ in range(5 if not th else 16)]
     prelude = "\n".join(f"Definition sc{i} : schema := {s.coq()}." for i, s in enumerate(schemas))
-    budget = 120 if not th else 600
-    n_msgs = (36, 9) if not th else (500, 120)
-    cap_corr = 2600 if not th else 30000
+    budget = 120 if not th else 400
+    n_msgs = (36, 9) if not th else (220, 40)
+    cap_corr = 2600 if not th else 16000
 
     cases = []          # (si, ci, fault, bytes, expectation)
     # ---- corpus first
@@ -729,7 +729,7 @@ def run(ctx):
             valid_inputs.append((si, ci, bs))
             for fault, vb in variants(s, ci, bs, rng, budget, th):
                 cases.append((si, ci, fault, vb, None))
-        for _ in range(80 if not th else 1500):
+        for _ in range(80 if not th else 600):
             ci = rng.randrange(len(s.classes))
             cases.append((si, ci, "random-bytes", random_bytes(rng, s.classes[ci]), None))
     # ---- dedup
@@ -841,6 +841,11 @@ def run(ctx):
 
 
 def finish(ctx):
+    summary = {}
+    for f in ctx.failures:
+        k = f"{f['kind']}:{f.get('cls')}"
+        summary[k] = summary.get(k, 0) + 1
+    ctx.cov["failures_by_stage_and_class"] = summary
     return lib.finish(
         ctx, "proof",
         "Coq theorems over the Gallina mirror of load_fields / _load_field / Message.load (Model/Decode.v) for every byte string and every "
